@@ -102,6 +102,16 @@ impl Sym {
     }
 }
 
+/// The token of request number `i`; every third one carries multi-byte characters, so that segment
+/// boundaries and byte mutations also fall inside a character.
+pub fn token(i: usize) -> String {
+    if i % 3 == 1 {
+        format!("t{}-\u{e9}\u{4e2d}\u{1F600}", i)
+    } else {
+        format!("t{}", i)
+    }
+}
+
 /// The C01 alphabet: 18 kinds x 3 flags.
 pub fn alphabet() -> Vec<Sym> {
     let mut v = vec![];
@@ -168,7 +178,7 @@ pub enum Style {
 
 /// Build the request object for symbol `s` at sequence index `i` (tokens are unique per index).
 pub fn request(s: Sym, i: usize) -> Value {
-    let tok = format!("t{}", i);
+    let tok = token(i);
     let (method, params): (String, Option<Value>) = match s.kind {
         Kind::GetInfo => ("org.varlink.service.GetInfo".into(), None),
         Kind::DescKnown => (
@@ -332,7 +342,7 @@ pub const E_METHOD_NOT_IMPL: &str = "org.varlink.service.MethodNotImplemented";
 
 /// What the property statements (C01, C03, C04, C05, C08) say the T-service must answer.
 pub fn expect(s: Sym, i: usize) -> Exp {
-    let tok = format!("t{}", i);
+    let tok = token(i);
     let more = s.flag == Flag::More;
     let mut conts = vec![];
     let mut may_close_instead = false;
